@@ -588,3 +588,77 @@ Proof.
   - rewrite (input_reenter fuel n s toks v text first more consumed) by assumption.
     cbn [fst snd]. split; [|reflexivity]. right. repeat split; try reflexivity; assumption.
 Qed.
+
+(* ------------------------------------------------------------------ *)
+(* 3. Any target (scalar or array cell, whatever its subscripts).
+
+   With a reply pending the statement is: trace, consume INPUT, take the reply,
+   parse the target [lv] (for an array cell this evaluates the subscripts),
+   then do exactly what the assignment statement ends with — [assign_value lv
+   val] — and EXTRA IGNORED if anything is left; or REENTER and await again. *)
+Theorem input_reply_any_target : forall fuel n s toks text first more consumed lv s2,
+  fst (cur_tokens s) = Ok toks ->
+  let i := loc_idx (loc s) in
+  nth_error toks i = Some TInput ->
+  input s = Some text ->
+  parse_data text = (first :: more, consumed) ->
+  n < max_nesting ->
+  parse_lvalue fuel (S n)
+     (at_idx (set_input None s) (S i) (S (reads s)) (outputs s ++ trace_of s)) = (Ok lv, s2) ->
+  evaluate_statement (S fuel) n s
+  = match coerce_data (lv_sym lv) first with
+    | Ok val =>
+        (assign_value lv val ;;;
+         if excess_of more consumed text then push_output OExtraIgnored else ret tt) s2
+    | Err EDataTypeMismatch _ => (push_output OReenter ;;; rewind_program_and_await_input) s2
+    | Err e l => (Err e l, s2)
+    | _ => (Panic PCellIndex, s2)
+    end.
+Proof.
+  intros fuel n s toks text first more consumed lv s2 Htoks i Hi Hin Hp Hn Hlv.
+  rewrite <- (at_idx_start s) at 1. fold i.
+  apply (input_reply_at s toks Htoks fuel n i (reads s) (outputs s) text first more consumed lv s2); assumption.
+Qed.
+
+(* ------------------------------------------------------------------ *)
+(* 4. The host API: a reply makes the interpreter Running with the reply
+      pending, and the next call executes the statement under the cursor —
+      which is the INPUT token the interpreter rewound to — and nothing before
+      it.  [after_statement] is the fixed tail of run_next_statement
+      (advance to the next line / return to Idle). *)
+
+Definition after_statement : M unit :=
+  h2 <- has_next_token ;;
+  if h2 then ret tt
+  else
+    n <- next_line ;;
+    if n then ret tt
+    else set_and_goto_immediate_line [] ;;; return_to_idle_state.
+
+Lemma has_next_token_eq s : line_exists s (loc s) ->
+  has_next_token s =
+  (Ok (match nth_error (cur_toks s) (loc_idx (loc s)) with Some _ => true | None => false end), bump s).
+Proof. intros H. unfold has_next_token. rewrite Safety.bind_run, (peek_eq s H). reflexivity. Qed.
+
+Theorem provide_input_spec text s : state s = AwaitingInput ->
+  provide_input text s = (Ok tt, set_state Running (set_input (Some text) s)).
+Proof. intros H. unfold provide_input. rewrite H. reflexivity. Qed.
+
+Theorem reply_resumes_at_input : forall fuel text s,
+  state s = AwaitingInput -> line_exists s (loc s) ->
+  nth_error (cur_toks s) (loc_idx (loc s)) = Some TInput ->
+  let s1 := snd (provide_input text s) in
+  state s1 = Running /\ input s1 = Some text /\ loc s1 = loc s
+  /\ continue_evaluating fuel s1
+     = postprocess ((evaluate_statement fuel 0 ;;; after_statement) (bump s1)).
+Proof.
+  intros fuel text s Hst Hl Hi s1. subst s1. rewrite (provide_input_spec text s Hst). cbn [snd].
+  repeat split.
+  unfold continue_evaluating. change (state (set_state Running (set_input (Some text) s))) with Running.
+  cbv iota. f_equal. unfold run_next_statement. rewrite StoreProofs.bind_modify.
+  set (s1 := set_state Running (set_input (Some text) s)).
+  assert (E : set_state Running s1 = s1) by reflexivity. rewrite E.
+  assert (Hl1 : line_exists s1 (loc s1)) by exact Hl.
+  rewrite Safety.bind_run, (has_next_token_eq s1 Hl1).
+  change (cur_toks s1) with (cur_toks s). change (loc s1) with (loc s). rewrite Hi. reflexivity.
+Qed.
